@@ -1805,9 +1805,7 @@ class Record(ak._connect._numpy.NDArrayOperatorsMixin):
                 + ak._util.exception_suffix(__file__)
             )
         array = ak.operations.structure.with_field(self.layout, what, where)
-        self._layout = array.layout
-        self._caches = ak._util.find_caches(self.layout)
-        self._numbaview = None
+        self.layout = array.layout
 
     def __getattr__(self, where):
         """
